@@ -158,7 +158,10 @@ Record oracles := mkOracles {
   (* primitive decoders *)
   dec_o_sk : bytes -> ores; dec_s_sk : bytes -> ores; dec_t_sk : bytes -> ores;
   dec_o_fvk : bytes -> ores; dec_s_fvk : bytes -> ores; dec_t_fvk : bytes -> ores;
-  dec_o_ivk : bytes -> ores; dec_s_ivk : bytes -> ores; dec_t_ivk : bytes -> ores
+  dec_o_ivk : bytes -> ores; dec_s_ivk : bytes -> ores; dec_t_ivk : bytes -> ores;
+  (* external IVK below an account private key, with the key's own BIP 32 metadata: the
+     derivation [from_checked_parts] performs; fails e.g. at depth 255 *)
+  t_sk_ivk : bytes -> option bytes
 }.
 
 (* ------------------------------------------------------------------------------------------ *)
@@ -198,7 +201,7 @@ Definition usk_to_ufvk (k : usk) : ufvk :=
 
 (** [UnifiedSpendingKey::from_checked_parts] *)
 Definition usk_from_checked_parts (t s o : bytes) : outcome usk unit :=
-  match t_pk_ivk Orc (t_sk_pk Orc t) with
+  match t_sk_ivk Orc t with
   | Some _ => Ok (mkUsk t s o)
   | None => Err tt
   end.
